@@ -43,7 +43,13 @@ FLOWS = [
     # writer's last commits, so the write-ahead log cannot be checkpointed completely) while the backup is taken
     {"name": "backup-with-reader", "unclean": False, "template": False, "reader": True},
     {"name": "backup-with-reader+wal-pending", "unclean": True, "template": False, "reader": True},
+    # no backup at all: committed pages, then the context is closed while (a) one of its own get_all_pages() iterations is
+    # unfinished, (b) a second context on the same file is still open; the committed content must survive a kill anywhere
+    {"name": "close-with-unfinished-iteration", "unclean": False, "template": False, "close": "iter"},
+    {"name": "close-while-other-context-open", "unclean": False, "template": False, "close": "other"},
+    {"name": "close-while-other-context-open+wal-pending", "unclean": True, "template": False, "close": "other"},
 ]
+CLOSE_PAGES = [("S1", 0, "committed before the close " + "s" * 300, None), ("S2", 0, "also committed before the close " + "t" * 300, None)]
 READER_PAGES = [("R1", 0, "committed before the reader's snapshot " + "y" * 300, None),
                 ("R2", 0, "committed after the reader's snapshot, before the backup " + "z" * 300, None)]
 
@@ -191,6 +197,30 @@ def phase1_reader(work):
     w.close_db_conn()
 
 
+def phase1_close(kind):
+    def fn(work):
+        from wikitextprocessor import Wtp
+
+        tr = sys.gettrace()
+        sys.settrace(None)
+        Wtp.get_page.cache_clear()
+        w = new_ctx(db_path=Path(work) / "t.db")
+        r = new_ctx(db_path=Path(work) / "t.db") if kind == "other" else None
+        for pg in CLOSE_PAGES:
+            w.add_page(*pg[:3])
+        w.db_conn.commit()
+        it = None
+        if kind == "iter":
+            it = w.get_all_pages()
+            next(it)
+        sys.settrace(tr)
+        w.close_db_conn()
+        sys.settrace(None)
+        fn.keep = (r, it)     # stays open until the process ends (a killed process closes nothing)
+        sys.settrace(tr)
+    return fn
+
+
 def phase2(work):
     w = new_ctx(db_path=Path(work) / "t.db")
     w.close_db_conn()
@@ -241,7 +271,9 @@ def work(payload, skip, report):
         shutil.copytree(s0, wk)
         t1 = Tracer(str(wk), base, "p1")
         two = bool(flow.get("two"))
-        p1 = phase1_two if two else phase1_reader if flow.get("reader") else phase1
+        p1 = phase1_two if two else phase1_reader if flow.get("reader") else phase1_close(flow["close"]) if flow.get("close") else phase1
+        if flow.get("close"):
+            want = sorted(want + CLOSE_PAGES)
         if flow.get("reader"):
             want = sorted([p for p in want if p[0] != "P3"] + READER_PAGES
                           + [("P3", 0, "P3 second version, committed before the backup " + "w" * 300, None)])
@@ -258,7 +290,12 @@ def work(payload, skip, report):
 
         nev1 = t1.n
         t2 = Tracer(str(wk), base, "p2")
-        traced(phase2, t2, str(wk))
+        try:
+            traced(phase2, t2, str(wk))
+        except Exception as e:
+            acc.case()
+            acc.violation("database_opens", {"flow": flow["name"], "phase": "open after the first phase has completed (no kill)"},
+                          type(e).__name__ + ": " + str(e)[:120], "opens")
         acc.count("line_events_phase1", nev1)
         acc.count("line_events_phase2", t2.n)
         outcomes = {}
@@ -352,7 +389,7 @@ def main(run):
     cov = {
         "distinct_nontrivial": len(run.acc.sets.get("images", ())),
         "kill_points_enumerated": c["line_events_phase1"] + c["line_events_phase2"] + c["line_events_double"],
-        "rule": "8 flows (4 override flows + 2 flows with two backups taken by one context and small commits in between + 2 flows where the backup is taken while a second context on the same file is half-way through get_all_pages() and holds an older read snapshot; database clean / with committed content pending in the write-ahead log x override set with / without a "
+        "rule": "11 flows (3 flows without any backup where committed pages are followed by close_db_conn() with an unfinished get_all_pages() iteration or with a second context still open; 4 override flows + 2 flows with two backups taken by one context and small commits in between + 2 flows where the backup is taken while a second context on the same file is half-way through get_all_pages() and holds an older read snapshot; database clean / with committed content pending in the write-ahead log x override set with / without a "
                 "template, i.e. both branches of analyze_and_overwrite_pages); every executed source line of core.py and dumpparser.py "
                 "during open+backup+overwrite+commit+close and during the restoring re-open is a kill point; distinct on-disk states "
                 "(content hash of the directory) are the crash images, which is sound because recovery is a function of the files; for "
